@@ -68,6 +68,8 @@ impl UStr {
         v
     }
 
+    pub fn first_unit(&self) -> Option<u16> { self.units().first().copied() }
+
     pub fn has_escape(&self) -> bool { self.pieces.iter().any(|p| !matches!(p, Piece::Ch(_))) }
 
     /// Encode without knowing what follows: the bare `80` form of the empty UCS-2 string is not used.
